@@ -17,6 +17,8 @@ void setSendHook(void (*fn)(int fd, size_t n));
 // hook called when recv on a stream endpoint returns 0 or an error other than would-block, or send fails with an error other than would-block
 void setFailHook(void (*fn)(int fd, bool isSend, int err));
 void setDnsDelayMs(int ms);
+size_t acceptQueueLen(int fd);                  // connections waiting to be accepted on a listening descriptor
+size_t peerSpace(int fd);                       // bytes the peer's receive queue can still take (0 if the peer is gone)
 int  fileIdWatermark();                         // ids of files created from now on are >= this value
 int  openFdCount();                             // number of simulated descriptors currently open
 
